@@ -3,6 +3,7 @@ import Model.Numscript.Spec
 import Lemmas.Syntax
 import Model.Numscript.VM
 import Lemmas.NumRun
+import Lemmas.NumRunEq
 import Lemmas.NumCheck
 import Lemmas.NumBytecode
 import Generated.Opcodes
@@ -176,6 +177,70 @@ example : Script.frag
       .saveMon (.mon (.asset "USD") 1) (.acct "a"),
       .setTxMeta "k" (.add (.num 1) (.num 2))]⟩ :=
   ⟨by simp, by intro s hs; simp at hs; rcases hs with rfl | rfl | rfl <;> rfl⟩
+
+/-! #### the resolution stage, and the end-to-end statement on the fragment -/
+
+/-- **the VM's resolution stage is `Spec`'s** — for EVERY compiled program (the whole language, no fragment
+hypothesis), every variable map and every store.  `SetVarsFromJSON` / `ResolveResources` / `ResolveBalances` on the
+compiled program fail exactly when `Spec.prepare` (`bindPlain`, `resolveVars`) / `checkBalanceVars` fail, with the
+same error class (`invalid_vars`, `missing_metadata`, `resolve_error`, `negative_amount`; the first failing
+declaration wins on both sides, a negative `balance(…)` is reported only after every declaration resolved); and
+when they succeed, the resolved resource table is the value of every resource under `Spec`'s environment
+(`Ctx`) and the tracked balances are exactly `Spec`'s initial balances `initBal store (needed env stmts)` —
+`Program.NeededBalances`, resolved, is `Spec.needed` as a set (`Num.compile_needed`).
+Proof: `Lemmas/NumPrepare.lean` (`SetVarsFromJSON` = `bindPlain`), `Lemmas/NumSim.lean` (declaration-by-declaration
+simulation, pending `balance(…)` slots), `Lemmas/NumNeeded.lean`, `Lemmas/NumRunEq.lean`. -/
+theorem resolution_stage_eq (P : Script) (prog : Program) (hc : compile P = .ok prog) (req : Request) (store : Store) :
+    match prepare P req store with
+    | .error er => VM.run prog req store = .error er
+    | .ok env =>
+      match checkBalanceVars env P.vars with
+      | .error er => VM.run prog req store = .error er
+      | .ok _ => ∃ vars R V B, VM.setVarsFromJSON prog req.vars = .ok vars ∧ VM.resolveResources prog vars store = .ok R ∧
+          VM.resolveBalances prog R store = .ok (V, B) ∧ Ctx prog.resources V env ∧
+          B.bal = initBal store (needed env P.stmts) :=  by
+  have h := resolution_stage hc req store
+  cases hp : prepare P req store with
+  | error er => rw [hp] at h; exact h
+  | ok env =>
+    rw [hp] at h
+    simp only at h ⊢
+    cases hcb : checkBalanceVars env P.vars with
+    | error er => rw [hcb] at h; exact h
+    | ok u =>
+      rw [hcb] at h
+      obtain ⟨vars, R, V, B, h1, h2, h3, h4, h5, _⟩ := h
+      exact ⟨vars, R, V, B, h1, h2, h3, h4, h5⟩
+
+/-- **compiled programs do what the source says — end to end, on the fragment**: for every program of
+`Script.frag` that compiles, every variable map and every store, running the bytecode on the VM (variables,
+resources, balances, execution, metadata merge) gives exactly what `Spec.run` gives: the same postings, transaction
+metadata, account metadata and printed values, or the same class of error — and never a panic (the right-hand side
+has no panic alternative).  No hypothesis on the resolution stage is left. -/
+theorem compile_correct_frag (P : Script) (prog : Program) (hc : compile P = .ok prog) (hfr : P.frag)
+    (req : Request) (store : Store) :
+    (VM.run prog req store).map VM.Result.obs = VM.Outcome.ofExcept ((Num.run P req store).map Num.Result.obs) :=
+  run_eq_of_exec hc (fun _ _ _ cx _ hE m F hrel => execute_correct hc hfr cx hE m F hrel) req store
+
+/-! non-vacuity: a program of the fragment (ordered capped source with a `@world` fallback, metadata) compiles,
+and both sides of `compile_correct_frag` are the two postings below (kernel evaluation of the compiler, the VM and
+`Spec`) -/
+def exFrag : Script :=
+  ⟨[], [.send (.mon (.mon (.asset "USD") 10))
+          (.src (.inorder (.cons (.maxed (.mon (.asset "USD") 4) (.acct (.acct "b") .none)) (.cons (.acct (.acct "world") .none) .nil))))
+          (.acct (.acct "alice")),
+        .setTxMeta "k" (.add (.num 1) (.num 2))]⟩
+def exStore : Store := ⟨fun a _ => if a = "b" then 3 else 0, fun _ _ => none⟩
+
+example : Script.frag exFrag := ⟨by simp [exFrag], by intro s hs; simp [exFrag] at hs; rcases hs with rfl | rfl <;> rfl⟩
+
+example : (match compile exFrag with
+    | .ok prog => (match VM.run prog ⟨[], []⟩ exStore with | .ok r => some r.obs | _ => none)
+    | .error _ => none) =
+    some ⟨[⟨"b", "alice", 3, "USD"⟩, ⟨"world", "alice", 7, "USD"⟩], [("k", "3")], [], []⟩ := by decide +kernel
+
+example : ((Num.run exFrag ⟨[], []⟩ exStore).map Num.Result.obs).toOption =
+    some ⟨[⟨"b", "alice", 3, "USD"⟩, ⟨"world", "alice", 7, "USD"⟩], [("k", "3")], [], []⟩ := by decide +kernel
 
 /-- invariant of the cache: every entry is the compilation of some text with that digest -/
 def CacheInv {Text Key Prog : Type} (H : Text → Key) (compile : Text → Option Prog) (c : Cache.Store Key Prog) : Prop :=
